@@ -29,9 +29,14 @@ class Clause(object):
 
     def __init__(self, name, check, strategy=None, rule="", examples=None,
                  shards=None, enumerate=None, exhaustive=False,
-                 max_shrink_s=None, fuzz=None):
+                 max_shrink_s=None, fuzz=None, isolate=False):
         self.name = name
         self.check = check
+        # isolate: every case runs in a child forked from a process that has
+        # only imported the library (vf/isolate.py) - for clauses about what
+        # calls leave behind in the process
+        self.isolate = isolate
+        self.property_id = None      # set by the runner
         self.strategy = strategy
         self.rule = rule
         self.examples = examples or {"quick": 500, "thorough": 5000}
@@ -42,6 +47,13 @@ class Clause(object):
         # fuzz: {"target": name in vf.fuzz.TARGETS, "runs": {tier: n},
         #        "corpus": [bytes, ...], "max_len": n}  (Atheris campaign)
         self.fuzz = fuzz
+
+    def run(self, case):
+        """check(case), isolated if the clause asks for it."""
+        if self.isolate:
+            from vf import isolate
+            return isolate.run(self.property_id, self.name, case)
+        return self.check(case)
 
 
 def canonical(case):
